@@ -49,6 +49,7 @@ type Engine struct {
 	globalRefs []string
 	extraTerms []*Term
 	symMode    int
+	propAll    map[string]bool
 	pendingFree map[string]Value
 	obls      []*Obligation
 	assumpLog map[string]bool
@@ -83,6 +84,7 @@ func newEngine() *Engine {
 		restVals:  map[string]Value{},
 		entries:   map[string]*EntryInfo{},
 		ghostSorts: map[string]string{},
+		propAll:    map[string]bool{},
 		refPayload: map[*Term]IfaceV{},
 		symByRef:   map[*Term]*SymIface{},
 		refFactsBy: map[string][]*Term{},
